@@ -562,4 +562,264 @@ theorem deliver_phi : ∀ fuel, PhiOK specs (deliver specs fuel) := by
     | stopImm ch st => simpa [deliver] using stopImm_phi specs _ hrec ih c ch st hg hl hsi hnt
     | takeUntil a t st => exact absurd hnt (by simp [Op.NoTake])
 
+/-- fuel bookkeeping: a call never increases `Op.need`, and a value signal strictly decreases it -/
+structure NeedPost (op : Op) (r : Res) : Prop where
+  nt : r.1.NoTake
+  le : r.1.need specs ≤ op.need specs
+  lt : ∀ v, r.2.2 = some (.next (.value v)) → r.1.need specs < op.need specs
+
+def NeedOK (rec : Rec) : Prop := ∀ c op, op.NoTake → NeedPost specs op (rec c op)
+
+theorem src_entry_lt (i : Nat) (n : Nat) (e : NextSpec) (h : (LeafKind.src i).entry specs n = e)
+    (hne : e ≠ .inl .done) : n < (specs i).nexts.length := by
+  rcases Nat.lt_or_ge n (specs i).nexts.length with h1 | h1
+  · exact h1
+  · exfalso
+    have : (specs i).nexts[n]? = none := by simp; omega
+    simp [LeafKind.entry, this] at h
+    exact hne h.symm
+
+theorem leaf_need_src (c : Call) (i : Nat) (st : LeafSt) :
+    NeedPost specs (.leaf (.src i) st) (leafStep specs c (.src i) st) := by
+  cases c with
+  | next s =>
+    simp only [leafStep]
+    cases hph : st.ph with
+    | idle =>
+      simp only
+      cases he : (LeafKind.src i).entry specs st.k with
+      | inl o =>
+        refine ⟨trivial, by simp [Op.need, leafRem, hph]; omega, ?_⟩
+        intro v hv
+        simp only [Option.some.injEq, Sig.next.injEq] at hv
+        subst hv
+        have := src_entry_lt specs i st.k _ he (by simp)
+        simp [Op.need, leafRem, hph]; omega
+      | pend o r =>
+        have := src_entry_lt specs i st.k _ he (by simp)
+        cases s <;> cases r <;> refine ⟨trivial, ?_, by simp⟩ <;> simp [Op.need, leafRem, hph] <;> omega
+    | nexting => exact ⟨trivial, by simp [Op.need, leafRem, hph], by simp⟩
+    | cleaning => exact ⟨trivial, by simp [Op.need, leafRem, hph], by simp⟩
+    | cleaned => exact ⟨trivial, by simp [Op.need, leafRem, hph], by simp⟩
+  | stop =>
+    simp only [leafStep]
+    cases hph : st.ph with
+    | nexting =>
+      simp only
+      cases he : (LeafKind.src i).entry specs (st.k - 1) with
+      | inl o => exact ⟨trivial, by simp [Op.need, leafRem], by simp⟩
+      | pend o r => cases r <;> refine ⟨trivial, ?_, by simp⟩ <;> simp [Op.need, leafRem, hph]
+    | idle => exact ⟨trivial, by simp [Op.need, leafRem], by simp⟩
+    | cleaning => exact ⟨trivial, by simp [Op.need, leafRem], by simp⟩
+    | cleaned => exact ⟨trivial, by simp [Op.need, leafRem], by simp⟩
+  | compNext j =>
+    simp only [leafStep]
+    split
+    · rename_i h
+      cases (LeafKind.src i).entry specs (st.k - 1) <;>
+        exact ⟨trivial, by simp [Op.need, leafRem, h.2], fun v _ => by simp [Op.need, leafRem, h.2]⟩
+    · exact ⟨trivial, by simp [Op.need, leafRem], by simp⟩
+  | cleanup =>
+    simp only [leafStep]
+    cases hph : st.ph with
+    | idle =>
+      simp only
+      cases (LeafKind.src i).clean specs <;> exact ⟨trivial, by simp [Op.need, leafRem, hph], by simp⟩
+    | nexting => exact ⟨trivial, by simp [Op.need, leafRem, hph], by simp⟩
+    | cleaning => exact ⟨trivial, by simp [Op.need, leafRem, hph], by simp⟩
+    | cleaned => exact ⟨trivial, by simp [Op.need, leafRem, hph], by simp⟩
+  | compClean j =>
+    simp only [leafStep]
+    split
+    · rename_i h
+      exact ⟨trivial, by simp [Op.need, leafRem, h.2], by simp⟩
+    · exact ⟨trivial, by simp [Op.need, leafRem], by simp⟩
+
+
+theorem leaf_need_other (c : Call) (k : LeafKind) (st : LeafSt) (hk : ∀ i, k ≠ .src i) :
+    NeedPost specs (.leaf k st) (leafStep specs c k st) := by
+  have hcl : k.clean specs = .inl none := by cases k <;> simp_all [LeafKind.clean]
+  cases c with
+  | next s =>
+    simp only [leafStep]
+    cases hph : st.ph with
+    | idle =>
+      simp only
+      cases k with
+      | src i => exact absurd rfl (hk i)
+      | range lo hi =>
+        by_cases h : lo + st.k < hi
+        · simp only [LeafKind.entry, h, if_true]
+          exact ⟨trivial, by simp [Op.need, leafRem]; omega, fun v _ => by simp [Op.need, leafRem]; omega⟩
+        · simp only [LeafKind.entry, h]
+          exact ⟨trivial, by simp [Op.need, leafRem]; omega, by simp⟩
+      | single w =>
+        by_cases h : st.k = 0
+        · simp only [LeafKind.entry, h, if_true]
+          exact ⟨trivial, by simp [Op.need, leafRem], fun v _ => by simp [Op.need, leafRem, h]⟩
+        · simp only [LeafKind.entry, h]
+          exact ⟨trivial, by simp [Op.need, leafRem], by simp⟩
+      | never =>
+        simp only [LeafKind.entry]
+        cases s <;> exact ⟨trivial, by simp [Op.need, leafRem], by simp⟩
+    | nexting => exact ⟨trivial, by simp [Op.need, leafRem, hph], by simp⟩
+    | cleaning => exact ⟨trivial, by simp [Op.need, leafRem, hph], by simp⟩
+    | cleaned => exact ⟨trivial, by simp [Op.need, leafRem, hph], by simp⟩
+  | stop =>
+    simp only [leafStep]
+    cases hph : st.ph with
+    | nexting =>
+      simp only
+      cases k.entry specs (st.k - 1) with
+      | inl o => exact ⟨trivial, Nat.le_refl _, by simp⟩
+      | pend o r =>
+        cases r
+        · exact ⟨trivial, Nat.le_refl _, by simp⟩
+        · refine ⟨trivial, ?_, by simp⟩
+          cases k <;> simp_all [Op.need, leafRem]
+    | idle => exact ⟨trivial, Nat.le_refl _, by simp⟩
+    | cleaning => exact ⟨trivial, Nat.le_refl _, by simp⟩
+    | cleaned => exact ⟨trivial, Nat.le_refl _, by simp⟩
+  | compNext j =>
+    simp only [leafStep]
+    split
+    · rename_i h; exact absurd h.1 (hk j)
+    · exact ⟨trivial, Nat.le_refl _, by simp⟩
+  | cleanup =>
+    simp only [leafStep, hcl]
+    cases hph : st.ph <;> refine ⟨trivial, ?_, by simp⟩ <;> cases k <;> simp_all [Op.need, leafRem]
+  | compClean j =>
+    simp only [leafStep]
+    split
+    · rename_i h; exact absurd h.1 (hk j)
+    · exact ⟨trivial, Nat.le_refl _, by simp⟩
+
+theorem leaf_need (c : Call) (k : LeafKind) (st : LeafSt) : NeedPost specs (.leaf k st) (leafStep specs c k st) := by
+  cases k with
+  | src i => exact leaf_need_src specs c i st
+  | range lo hi => exact leaf_need_other specs c _ st (by simp)
+  | single v => exact leaf_need_other specs c _ st (by simp)
+  | never => exact leaf_need_other specs c _ st (by simp)
+
+
+theorem un_need (rec : Rec) (hrec : NeedOK specs rec) (c : Call) (k : UnKind) (ch : Op) (hnt : ch.NoTake) :
+    NeedPost specs (.un k ch) (unStep rec c k ch) := by
+  obtain ⟨nt, le, lt⟩ := hrec c ch hnt
+  simp only [unStep]
+  cases hs : (rec c ch).2.2 with
+  | none => exact ⟨nt, by simp [Op.need]; exact le, by simp⟩
+  | some sg =>
+    cases sg with
+    | clean e => exact ⟨nt, by simp [Op.need]; exact le, by simp⟩
+    | next o =>
+      refine ⟨nt, by simp [Op.need]; exact le, ?_⟩
+      intro w hw
+      simp only [Option.some.injEq, Sig.next.injEq] at hw
+      cases o with
+      | value v => have := lt v hs; simp only [Op.need]; omega
+      | done => cases k <;> simp [UnKind.mapNext] at hw
+      | error e => cases k <;> simp [UnKind.mapNext] at hw
+
+theorem filter_need (rec : Rec) (hrec : NeedOK specs rec) (c : Call) (p : Pred) (ch : Op) (s0 : Bool) (hnt : ch.NoTake) :
+    NeedPost specs (.filter p ch s0) (filterStep rec c p ch s0) := by
+  obtain ⟨nt, le, lt⟩ := hrec c ch hnt
+  rw [filterStep_eq]
+  have base : ∀ sg', (∀ v, sg' = some (.next (.value v)) → (rec c ch).2.2 = some (.next (.value v))) →
+      NeedPost specs (.filter p ch s0) (.filter p (rec c ch).1 (flagOf c s0), (rec c ch).2.1, sg') := by
+    intro sg' h
+    exact ⟨nt, by simp [Op.need]; exact le, fun v hv => by have := lt v (h v hv); simp only [Op.need]; omega⟩
+  cases hs : (rec c ch).2.2 with
+  | none => simpa [filterAfter, hs] using base none (by simp)
+  | some sg =>
+    cases sg with
+    | clean e => simpa [filterAfter, hs] using base (some (.clean e)) (by simp)
+    | next o =>
+      cases o with
+      | done => simpa [filterAfter, hs] using base (some (.next .done)) (by simp)
+      | error e => simpa [filterAfter, hs] using base (some (.next (.error e))) (by simp)
+      | value v =>
+        cases hp : p.app v with
+        | keep => simpa [filterAfter, hs, hp] using base (some (.next (.value v))) (by simp [hs])
+        | throw e => simpa [filterAfter, hs, hp] using base (some (.next (.error e))) (by simp)
+        | drop =>
+          have hlt := lt v hs
+          obtain ⟨nt2, le2, lt2⟩ := hrec (.next (flagOf c s0)) (.filter p (rec c ch).1 (flagOf c s0)) nt
+          have h1 : (Op.filter p ch s0).need specs = ch.need specs + 1 := rfl
+          have h2 : (Op.filter p (rec c ch).1 (flagOf c s0)).need specs = (rec c ch).1.need specs + 1 := rfl
+          rw [h2] at le2 lt2
+          simp only [filterAfter, hs, hp]
+          refine ⟨nt2, ?_, ?_⟩
+          · dsimp only; rw [h1]; omega
+          · intro w hw
+            have := lt2 w hw
+            dsimp only; rw [h1]; omega
+
+theorem stopImm_need (rec : Rec) (hrec : NeedOK specs rec) (call : Call) (c : Op) (st : StopImmSt) (hnt : c.NoTake) :
+    NeedPost specs (.stopImm c st) (stopImmStep rec call c st) := by
+  -- every clause calls the child at most twice (the second time cleanup) and forwards only the child's value
+  have onClean : ∀ (c' : Op) (st' : StopImmSt) outs sg, c'.NoTake → c'.need specs ≤ c.need specs →
+      NeedPost specs (.stopImm c st) (siOnClean c' st' outs sg) := by
+    intro c' st' outs sg h1 h2
+    unfold siOnClean
+    split <;> exact ⟨h1, by simp [Op.need]; exact h2, by simp⟩
+  have onChild : ∀ (ev : Call) (st' : StopImmSt),
+      NeedPost specs (.stopImm c st) (siOnChild rec (rec ev c).1 st' (rec ev c).2.1 (rec ev c).2.2) := by
+    intro ev st'
+    obtain ⟨nt, le, lt⟩ := hrec ev c hnt
+    unfold siOnChild
+    split
+    · exact ⟨nt, by simp [Op.need]; exact le, by simp⟩
+    · rename_i o hs
+      split
+      · refine ⟨nt, by simp [Op.need]; exact le, ?_⟩
+        intro v hv
+        simp only [Option.some.injEq, Sig.next.injEq] at hv
+        subst hv
+        have := lt v hs
+        simp only [Op.need]; omega
+      · exact ⟨nt, by simp [Op.need]; exact le, by simp⟩
+      · obtain ⟨nt2, le2, lt2⟩ := hrec .cleanup (rec ev c).1 nt
+        exact onClean _ _ _ _ nt2 (by omega)
+      · exact ⟨nt, by simp [Op.need]; exact le, by simp⟩
+    · exact onClean _ _ _ _ nt le
+  cases call with
+  | compNext j => exact onChild _ st
+  | compClean j => exact onChild _ st
+  | next stopped =>
+    simp only [stopImmStep]
+    split
+    · split
+      · exact ⟨hnt, Nat.le_refl _, by simp⟩
+      · exact onChild _ _
+    · exact ⟨hnt, Nat.le_refl _, by simp⟩
+  | stop =>
+    simp only [stopImmStep]
+    split
+    · obtain ⟨nt, le, lt⟩ := hrec .stop c hnt
+      exact ⟨nt, by simp [Op.need]; exact le, by simp⟩
+    · exact ⟨hnt, Nat.le_refl _, by simp⟩
+  | cleanup =>
+    simp only [stopImmStep]
+    split
+    · split
+      · exact ⟨hnt, Nat.le_refl _, by simp⟩
+      · obtain ⟨nt, le, lt⟩ := hrec .cleanup c hnt
+        exact onClean _ _ _ _ nt le
+      · exact ⟨hnt, Nat.le_refl _, by simp⟩
+      · exact ⟨hnt, Nat.le_refl _, by simp⟩
+    · exact ⟨hnt, Nat.le_refl _, by simp⟩
+
+theorem deliver_need : ∀ fuel, NeedOK specs (deliver specs fuel) := by
+  intro fuel
+  induction fuel with
+  | zero => intro c op hnt; exact ⟨hnt, Nat.le_refl _, by simp [deliver]⟩
+  | succ n ih =>
+    intro c op hnt
+    cases op with
+    | leaf k st => simpa [deliver] using leaf_need specs c k st
+    | un k ch => simpa [deliver] using un_need specs _ ih c k ch hnt
+    | filter p ch s => simpa [deliver] using filter_need specs _ ih c p ch s hnt
+    | stopImm ch st => simpa [deliver] using stopImm_need specs _ ih c ch st hnt
+    | takeUntil a t st => exact absurd hnt (by simp [Op.NoTake])
+
 end Unifex.Stream
